@@ -27,12 +27,13 @@ type FaultConn struct {
 	Wire      []byte
 	Writes    []WriteRec
 	OnCancel  func() // called by a write event with Cancel set, after its bytes were taken
+	OnExpire  func() // called by a read event of kind "expire" (the caller's context ends during a stall)
 
 	closed bool
 }
 
 type ReadEv struct {
-	Kind  string `json:"k"` // "data" | "timeout" | "stall"
+	Kind  string `json:"k"` // "data" | "timeout" | "stall" | "expire"
 	N     int    `json:"n,omitempty"`
 	Micro int    `json:"us,omitempty"` // stall duration before the data is returned
 }
@@ -74,6 +75,14 @@ func (c *FaultConn) Read(p []byte) (int, error) {
 		switch ev.Kind {
 		case "timeout":
 			c.Reads = append(c.Reads, ReadRec{Req: len(p), TO: true})
+			return 0, timeoutErr{}
+		case "expire":
+			c.Reads = append(c.Reads, ReadRec{Req: len(p), TO: true})
+			if f := c.OnExpire; f != nil {
+				c.mu.Unlock()
+				f()
+				c.mu.Lock()
+			}
 			return 0, timeoutErr{}
 		case "stall":
 			c.mu.Unlock()
